@@ -57,7 +57,6 @@ Definition marshal_wf (b : block) : Prop :=
   | [_] => b_nsb b = [] /\ b_idx b = [] /\ b_vals b = []
   | _ =>
     N.of_nat (length (b_nsb b)) = b_gx b * b_gy b * b_gz b /\ 0 < b_gx b * b_gy b * b_gz b /\
-    N.even (b_gx b * b_gy b * b_gz b) = true /\
     Forall (fun n => n < 2 ^ 16) (b_nsb b) /\
     N.of_nat (length (b_idx b)) = sum_N (b_nsb b) /\ 0 < sum_N (b_nsb b) /\
     Forall (fun i => i < 2 ^ 32) (b_idx b) /\
@@ -92,7 +91,7 @@ Proof.
   { intro rest. unfold hdr. rewrite <- !app_assoc.
     assert (Bn : n < 256 ^ N.of_nat 4).
     { destruct labels as [|l1 [|l2 ls]]; [contradiction| unfold n; simpl; lia |].
-      destruct W as [_ [_ [_ [_ [_ [_ [_ W]]]]]]]. rewrite marshal_parts in W.
+      destruct W as [_ [_ [_ [_ [_ [_ W]]]]]]. rewrite marshal_parts in W.
       cbn [b_gx b_gy b_gz b_labels b_nsb b_idx b_vals] in W.
       rewrite !app_length, flat_le_length in W. fold n in W. simpl in *. lia. }
     destruct (hdr4 (le_enc 4 gx) (le_enc 4 gy) (le_enc 4 gz) (le_enc 4 n) rest) as [A1 [A2 [A3 [A4 S]]]];
@@ -105,7 +104,7 @@ Proof.
     assert (Em : marshal (mkBlock gx gy gz [l1] [] [] []) = hdr ++ lab).
     { rewrite marshal_parts. cbn [b_gx b_gy b_gz b_labels b_nsb b_idx b_vals]. rewrite app_nil_r. reflexivity. }
     rewrite Em. clear Em.
-    unfold unmarshal.
+    unfold unmarshal, unmarshal_gen.
     assert (Llen : length (hdr ++ lab) = 24%nat) by (rewrite app_length, Lhdr, Llab; reflexivity).
     rewrite Llen. cbn [N.of_nat Pos.of_succ_nat Pos.succ N.ltb N.compare Pos.compare Pos.compare_cont].
     change ((24 + 7) / 8 * 8 - 24) with 0. cbn [N.to_nat repeat]. rewrite app_nil_r.
@@ -122,7 +121,7 @@ Proof.
     rewrite <- (app_nil_r (flat_map (le_enc 8) [l1])).
     rewrite words_flat by exact HL. reflexivity.
   - (* general *)
-    destruct W as [Wn [Wpos [Wev [Wnsb [Wi [Wipos [Widx Wlen]]]]]]].
+    destruct W as [Wn [Wpos [Wnsb [Wi [Wipos [Widx Wlen]]]]]].
     set (labels := l1 :: l2 :: ls) in *.
     set (nsbB := flat_map (le_enc 2) nsb). set (idxB := flat_map (le_enc 4) idx).
     assert (Lnsb : length nsbB = (2 * length nsb)%nat) by apply flat_le_length.
@@ -135,7 +134,7 @@ Proof.
                    = 16 + 8 * n + 2 * nsbs + 4 * sum_N nsb + N.of_nat (length vals)).
     { rewrite !app_length, Lhdr, Llab, Lnsb, Lidx. fold n. lia. }
     assert (Hn2 : 2 <= n) by (unfold n, labels; simpl length; lia).
-    unfold unmarshal.
+    unfold unmarshal, unmarshal_gen.
     set (data := hdr ++ lab ++ nsbB ++ idxB ++ vals) in *.
     set (len := N.of_nat (length data)) in *.
     replace (len <? 24) with false by (symmetry; apply N.ltb_ge; lia).
@@ -190,10 +189,7 @@ Proof.
              || (cap <? 16 + 8 * n + 2 * nsbs + 4 * sum_N nsb)) with false
       by (symmetry; rewrite orb_false_iff; split; apply N.ltb_ge; lia).
     replace (4 * sum_N nsb =? 0) with false by (symmetry; apply N.eqb_neq; lia).
-    assert (Hev : exists h, nsbs = 2 * h) by (apply N.even_spec; exact Wev).
-    destruct Hev as [h Hh].
-    replace ((16 + 8 * n + 2 * nsbs) mod 4 =? 0) with true by (symmetry; apply N.eqb_eq; lia).
-    cbn [negb].
+    cbn [andb].
     replace (len <? 16 + 8 * n + 2 * nsbs + 4 * sum_N nsb) with false by (symmetry; apply N.ltb_ge; lia).
     assert (Sk2 : skipn (N.to_nat (16 + 8 * n + 2 * nsbs)) (hdr ++ lab ++ nsbB ++ idxB ++ vals ++ zeros)
                   = idxB ++ vals ++ zeros).
@@ -248,10 +244,10 @@ Theorem encode_marshal_wf tbl vol wx wy wz ox oy oz gx gy gz b :
 Proof.
   intros E HT HL.
   assert (exists sbs, gather vol wx wy ox oy oz gx gy gz = Ok sbs) as [sbs G].
-  { unfold encode_at in E. destruct (negb (size_checks _ _ _ _ _ _ _ _ _)); [discriminate|].
+  { unfold encode_at, encode_gen in E. destruct (negb (size_checks _ _ _ _ _ _ _ _ _)); [discriminate|].
     destruct (gather vol wx wy ox oy oz gx gy gz) as [sbs| |]; [eauto|discriminate|discriminate]. }
   assert (SC : 2 <= gx <= 128 /\ 2 <= gy <= 128 /\ 2 <= gz <= 128).
-  { unfold encode_at in E. destruct (size_checks wx wy wz ox oy oz gx gy gz) eqn:SC; [|discriminate].
+  { unfold encode_at, encode_gen in E. destruct (size_checks wx wy wz ox oy oz gx gy gz) eqn:SC; [|discriminate].
     unfold size_checks in SC. rewrite !andb_true_iff, !negb_true_iff, !orb_false_iff in SC.
     change n_MaxSubBlockSize with 128 in SC.
     destruct SC as [[[_ [[A1 A2] A3]] _] [[B1 B2] B3]].
@@ -260,7 +256,7 @@ Proof.
   destruct (gather_lengths _ _ _ _ _ _ _ _ _ _ G) as [GL _].
   unfold marshal_wf. rewrite Ex, Ey, Ez, El.
   split; [lia|]. split; [lia|]. split; [lia|]. split; [exact HT|].
-  destruct Cases as [[l [Et Eb]] | [Hne [Hodd S]]].
+  destruct Cases as [[l [Et Eb]] | [Hne S]].
   - subst tbl b. cbn. repeat split.
   - destruct (Sem_counts _ _ _ _ _ S) as [C1 [C2 C3]].
     pose proof (Sem_length _ _ _ _ _ S) as SL.
@@ -270,7 +266,7 @@ Proof.
       exfalso. assert (sbs <> []) as NE by (intro; subst; simpl in GL; lia).
       destruct (Sem_sum_pos _ _ _ _ _ S NE) as [_ P]. simpl in P. lia.
     + exfalso. exact (Hne l1 eq_refl).
-    + split; [lia|]. split; [exact Hpos|]. split; [now rewrite <- N.negb_odd, Hodd|].
+    + split; [lia|]. split; [exact Hpos|].
       split; [eapply Forall_impl; [|exact C2]; simpl; intros; lia|].
       split; [exact C1|]. split.
       * assert (sbs <> []) as NE by (intro; subst; simpl in GL; lia).
